@@ -15,7 +15,7 @@ func init() {
 }
 
 func genC01(c *Ctx, r *rng.R, i int) {
-	if i < 4 {
+	if i < 9 {
 		c01Corpus(c, i)
 		return
 	}
@@ -47,6 +47,16 @@ func genC01(c *Ctx, r *rng.R, i int) {
 	switch r.Intn(14) {
 	case 0, 1, 2:
 		p = plan{[]string{"OAdd", "OSub", "OMul", "ODiv", "OMod"}[r.Intn(5)], []cty.Value{num(), num()}}
+		if r.Chance(35) { // both operands known only as small ranges around them, of either sign: interval arithmetic on all corners
+			x, y := int64(r.Intn(21)-10), int64(r.Intn(21)-10)
+			rg := func(v int64) cty.Value {
+				lo, hi := v-int64(r.Intn(6)), v+int64(r.Intn(6))
+				return cty.UnknownVal(cty.Number).Refine().NotNull().NumberRangeInclusive(cty.NumberIntVal(lo), cty.NumberIntVal(hi)).NewValue()
+			}
+			op := []string{"OAdd", "OSub", "OMul"}[r.Intn(3)]
+			c01Pair(c, op, []cty.Value{cty.NumberIntVal(x), cty.NumberIntVal(y)}, []cty.Value{rg(x), rg(y)}, true)
+			return
+		}
 	case 3, 4:
 		x := num()
 		y := num()
@@ -258,6 +268,34 @@ func c01Corpus(c *Ctx, i int) {
 		b := cty.MustParseNumberVal("0.1000000000000000027")
 		a := cty.UnknownVal(cty.Number).Refine().NotNull().NumberRangeLowerBound(b, true).NewValue()
 		c01Pair(c, "OEq", []cty.Value{f, p}, []cty.Value{a, p}, true)
+	case 4: // sets whose members contain unknown values: equality (fixed: e670d77)
+		ub := cty.UnknownVal(cty.Bool).RefineNotNull()
+		k := cty.SetVal([]cty.Value{cty.SetVal([]cty.Value{cty.False})})
+		a := cty.SetVal([]cty.Value{cty.SetVal([]cty.Value{ub})})
+		c01Pair(c, "OEq", []cty.Value{k, k}, []cty.Value{a, k}, true)
+		c01Pair(c, "ONe", []cty.Value{k, k}, []cty.Value{k, a}, true)
+	case 5:
+		k := cty.SetVal([]cty.Value{cty.TupleVal([]cty.Value{cty.StringVal("a"), cty.NumberIntVal(1)})})
+		a := cty.SetVal([]cty.Value{cty.TupleVal([]cty.Value{cty.UnknownVal(cty.String), cty.NumberIntVal(1)})})
+		c01Pair(c, "OEq", []cty.Value{k, k}, []cty.Value{a, k}, true)
+	case 6: // membership of an element that merely contains an unknown (fixed: 74cd71d)
+		set := cty.SetVal([]cty.Value{cty.TupleVal([]cty.Value{cty.NumberIntVal(1), cty.NumberIntVal(2)})})
+		e := cty.TupleVal([]cty.Value{cty.NumberIntVal(1), cty.NumberIntVal(2)})
+		ea := cty.TupleVal([]cty.Value{cty.UnknownVal(cty.Number), cty.NumberIntVal(2)})
+		c01Pair(c, "OHasElem", []cty.Value{set, e}, []cty.Value{set, ea}, true)
+	case 7:
+		set := cty.SetVal([]cty.Value{cty.ListVal([]cty.Value{cty.StringVal("x")}), cty.ListVal([]cty.Value{cty.StringVal("y"), cty.StringVal("z")})})
+		e := cty.ListVal([]cty.Value{cty.StringVal("y"), cty.StringVal("z")})
+		ea := cty.ListVal([]cty.Value{cty.StringVal("y"), cty.UnknownVal(cty.String)})
+		c01Pair(c, "OHasElem", []cty.Value{set, e}, []cty.Value{set, ea}, true)
+	case 8: // products of ranges reaching below zero: every corner counts
+		mk := func(lo, hi int64) cty.Value {
+			return cty.UnknownVal(cty.Number).Refine().NotNull().NumberRangeInclusive(cty.NumberIntVal(lo), cty.NumberIntVal(hi)).NewValue()
+		}
+		c01Pair(c, "OMul", []cty.Value{cty.NumberIntVal(-10), cty.NumberIntVal(-7)}, []cty.Value{mk(-10, 1), mk(-7, 2)}, true)
+		c01Pair(c, "OMul", []cty.Value{cty.NumberIntVal(-1), cty.NumberIntVal(-2)}, []cty.Value{mk(-3, -1), mk(-5, -2)}, true)
+		c01Pair(c, "OMul", []cty.Value{cty.NumberIntVal(-3), cty.NumberIntVal(-5)}, []cty.Value{mk(-3, -1), mk(-5, -2)}, true)
+		c01Pair(c, "OMul", []cty.Value{cty.NumberIntVal(4), cty.NumberIntVal(-6)}, []cty.Value{mk(-2, 4), mk(-6, 3)}, true)
 	default: // object with one unknown and one unequal attribute (fixed: order independence)
 		x := cty.ObjectVal(map[string]cty.Value{"a": cty.StringVal("x"), "b": cty.NumberIntVal(1)})
 		y := cty.ObjectVal(map[string]cty.Value{"a": cty.StringVal("x"), "b": cty.NumberIntVal(2)})
